@@ -81,3 +81,36 @@ pub fn panic_signature(msg: &str) -> String {
     }
     format!("panic:{file}:{out}")
 }
+
+/// Run `f` with file descriptor 1 redirected into an anonymous memory file; returns the closure's
+/// result (panic message on unwind) and everything that was printed.
+pub fn capture_stdout<T>(f: impl FnOnce() -> T + std::panic::UnwindSafe) -> (Result<T, String>, Vec<u8>) {
+    use std::io::Write;
+    unsafe {
+        let _ = std::io::stdout().flush();
+        let fd = libc::memfd_create(b"verif-stdout\0".as_ptr() as *const libc::c_char, 0);
+        if fd < 0 {
+            return (Err("memfd_create failed".into()), vec![]);
+        }
+        let saved = libc::dup(1);
+        libc::dup2(fd, 1);
+        let r = catch(f);
+        let _ = std::io::stdout().flush();
+        libc::dup2(saved, 1);
+        libc::close(saved);
+        let len = libc::lseek(fd, 0, libc::SEEK_END).max(0) as usize;
+        libc::lseek(fd, 0, libc::SEEK_SET);
+        let mut out = vec![0u8; len];
+        let mut got = 0usize;
+        while got < len {
+            let n = libc::read(fd, out.as_mut_ptr().add(got) as *mut libc::c_void, len - got);
+            if n <= 0 {
+                break;
+            }
+            got += n as usize;
+        }
+        out.truncate(got);
+        libc::close(fd);
+        (r, out)
+    }
+}
